@@ -16,7 +16,7 @@ Pool(t) == CASE t = "int" -> {I(3), I(-2)} [] t = "uint" -> {U(5), U(2)} [] t = 
              [] t = "list" -> {LI(<<1, 2>>), LI(<<>>)} [] t = "bool" -> {Bool(TRUE), Bool(FALSE)}
              [] t = "map" -> {Map(<< <<S(<<97>>), I(1)>> >>), Map(<<>>)} [] t = "null" -> {Null}
              [] t = "timestamp" -> {Ts(Mul(FromInt(18262), Day)), Ts(Z)} [] t = "duration" -> {Dur(MegaB), Dur(Day)}
-             [] t = "type" -> {Type("int"), Type("string")}
+             [] t = "type" -> {Type("int"), Type("string"), Type("null_type"), Type("type")}
 Types == {"int", "uint", "double", "string", "bytes", "list", "bool", "map", "null", "timestamp", "duration", "type"}
 L2(t) == { Lit(v) : v \in Pool(t) }
 ArithOps(t) == CASE t \in {"int", "uint"} -> {"+", "-", "*", "/", "%"} [] t = "double" -> {"+", "-", "*", "/"}
